@@ -130,7 +130,7 @@ class Cfg:
     def setp(self, target, pool):
         kind = self.toggle[0]
         if kind == "plain":
-            return dict(self.toggle[1]) if target == "B" else {k: build(self.obj.kw[k]) for k in self.toggle[1]}
+            return copy.deepcopy(self.toggle[1]) if target == "B" else {k: build(self.obj.kw[k]) for k in self.toggle[1]}
         if kind == "swap":
             return {self.toggle[1]: pool[target]}
         return {self.toggle[1]: copy.deepcopy(self.toggle[3] if target == "B" else self.toggle[2])}
@@ -183,6 +183,8 @@ def scorer_configs():
         Cfg("L2Cost/plain", S("L2Cost", param=None), ("plain", {"param": 1.5})),
         Cfg("GaussianVarCost/plain", S("GaussianVarCost", param=None), ("plain", {"param": (0.0, 2.0)})),
         Cfg("GaussianCovCost/plain", S("GaussianCovCost", param=None), ("plain", {"param": (0.0, 1.0)})),
+        Cfg("L2Cost/array-param", S("L2Cost", param=np.array([0.5])), ("plain", {"param": np.array([1.5])})),
+        Cfg("GaussianVarCost/array-param", S("GaussianVarCost", param=None), ("plain", {"param": (np.array([0.0]), np.array([2.0]))})),
         Cfg("CUSUM", S("CUSUM"), None),
         Cfg("L2Saving", S("L2Saving"), None),
         Cfg("ChangeScore/swap", S("ChangeScore", cost=L2), ("swap", "cost", S("GaussianVarCost"))),
